@@ -1,11 +1,11 @@
 #!/bin/bash
 # usage: tools/seed_sweep.sh <tier> <seed>...     runs every registered check at each seed and
-# prints one line per run; exit 1 if any run was not silent (rc != 0).
+# prints one line per run; exit 1 if any run was not silent (rc != 0).  PROPS="C01 C02" restricts the checks.
 tier="$1"; shift
 cd "$(dirname "$0")/.." || exit 9
 bad=0
 for seed in "$@"; do
-  for p in $(./check --list | awk '{print $1}'); do
+  for p in ${PROPS:-$(./check --list | awk '{print $1}')}; do
     out=$(VERIF_SEED=$seed ./check "$p" "$tier" 2>&1); rc=$?
     line=$(echo "$out" | grep -E "^$p " | tail -1)
     echo "seed=$seed rc=$rc $line"
